@@ -90,6 +90,13 @@ def lattice(tier):
         cfgs.append({"cls": "quantized_sigmoid", "kw": kw})
       else:
         cfgs.append({"cls": "quantized_sigmoid", "kw": kw, "sigmoid": mode})
+  if tier != "quick":
+    # wide formats: codes up to the 2^24-step bound of the property (partial walks)
+    for b in (20, 24):
+      cfgs.append({"cls": "quantized_relu", "kw": {"bits": b, "integer": 0, "negative_slope": 0.0}})
+      cfgs.append({"cls": "quantized_bits", "kw": {"bits": b, "integer": 0, "symmetric": 1, "keep_negative": True, "alpha": None}})
+      cfgs.append({"cls": "quantized_bits", "kw": {"bits": b, "integer": 2, "symmetric": 0, "keep_negative": True, "alpha": None}})
+      cfgs.append({"cls": "quantized_linear", "kw": {"bits": b, "integer": 0, "symmetric": 1, "keep_negative": True, "alpha": None}})
   for c in cfgs:
     c.setdefault("sigmoid", "hard")
   return cfgs
@@ -157,7 +164,9 @@ def model(cfg):
   if cls == "quantized_bits" and kw.get("alpha") is not None:
     m["u_in"] = m["u"] / float(kw["alpha"])
   m["bound"] = 2.0 ** 24 * m["u"]
-  m["gen_bound"] = 2.0 ** 22 * m["u"]
+  # generation bound: the property's own bound (2^24 steps, exclusive) on the
+  # finer of the input and output grids, minus a hair so the comparison is strict
+  m["gen_bound"] = 2.0 ** 24 * min(m["u"], m["u_in"]) * (1.0 - 2.0 ** -20)
   m["sigmoid"] = cfg.get("sigmoid", "hard")
   return m
 
@@ -217,10 +226,12 @@ def walk(cfg, m=None, full=True):
   kmin, kmax = m["kmin"], m["kmax"]
   span = kmax - kmin
   if span > 600 and not full:
+    p2 = np.concatenate([s * (2 ** np.arange(1, 25)) + d for s in (1, -1) for d in (-2, -1, 0, 1, 2)])
     ks = np.unique(np.concatenate([
         np.arange(kmin - 3, kmin + 40), np.arange(-20, 21),
-        np.arange(kmax - 40, kmax + 4),
-        np.linspace(kmin, kmax, 200).astype(np.int64)]))
+        np.arange(kmax - 40, kmax + 4), p2[(p2 >= kmin) & (p2 <= kmax)],
+        np.linspace(kmin, kmax, 400).astype(np.int64),
+        np.linspace(kmin, kmax, 400).astype(np.int64) | 1]))
   else:
     ks = np.arange(kmin - 3, kmax + 4)
   ks = ks.astype(np.float64)
@@ -254,7 +265,7 @@ def walk(cfg, m=None, full=True):
         xs = (pts_code * u - 0.5) / 0.5
       else:
         xs = (pts_code * u - 0.5) / 0.1875
-  gb = min(m["gen_bound"], 2.0 ** 22 * u)
+  gb = m["gen_bound"]
   extra = np.array([0.0, -0.0, 1e-45, -1e-45, 1e-40, -1e-40, 1.1754944e-38,
                     -1.1754944e-38, 1e-30, -1e-30, u / 1024, -u / 1024,
                     gb * 0.999, -gb * 0.999, gb / 3, -gb / 3, gb / 1000.3,
@@ -283,7 +294,7 @@ def tensor_strategy(m, max_elems=48):
   breakpoints, codes, saturation and tiny values; all inside gen_bound."""
   from hypothesis import strategies as st  # pylint: disable=g-import-not-at-top
   u = m["u_in"]
-  gb = min(m["gen_bound"], 2.0 ** 22 * u)
+  gb = m["gen_bound"]
   kmin, kmax = m["kmin"], m["kmax"]
 
   code = st.integers(kmin - 3, kmax + 3)
